@@ -419,6 +419,26 @@ def draw_strategy(r: random.Random) -> dict:
     return s
 
 
+def sync_only_variant(run_seed: int, sched: dict, share: float = 0.22, focus_names=()) -> dict:
+    """A share of the runs (own PRNG stream) switches threads ONLY at synchronisation events (lock acquire / release, timer
+    arm / expiry): critical-section-boundary interleavings - the ones that matter when a lock scope is too small - are few, so
+    a plain coin per boundary reaches combinations of two or three targeted switches that instruction-level coins practically
+    never produce."""
+    r = random.Random(run_seed ^ 0x5C0DE5)
+    if r.random() >= share:
+        return sched
+    s = dict(sched)
+    s.update({"strategy": "random", "p": 0.0, "sync_p": r.choice([0.15, 0.2, 0.35, 0.5]), "sync_only": True})
+    if focus_names and r.random() < 0.6:
+        # all coins are thrown at the boundaries of ONE lock (substring of its name): two threads parked right before / after the
+        # critical sections of the same lock is the shape of most atomicity bugs
+        s["focus_lock"] = r.choice(list(focus_names))
+        s["sync_p"] = r.choice([0.35, 0.5, 0.5])
+    s.pop("d", None)
+    s.pop("at", None)
+    return s
+
+
 class Scheduler:
     def __init__(self, modules, sched: dict, seed: int, step_cap: int = DEFAULT_STEP_CAP, n_est: int | None = None,
                  t0_us: int = 1_767_225_600_000_000, n_sync_est: int | None = None):
@@ -467,6 +487,7 @@ class Scheduler:
         self._xi = 0
         self.sync_events = 0
         self._sync_p = float(self.cfg.get("sync_p", 0))
+        self._focus_lock = self.cfg.get("focus_lock")
         self._sync_points: dict = {}
         self._one_sync_at = None
         self.n_sync_est = None
@@ -627,7 +648,7 @@ class Scheduler:
         mode = self._mode
         to = None
         if mode == "random":
-            if self._sync_p and self._rng.random() < self._sync_p:
+            if self._sync_p and (self._focus_lock is None or self._focus_lock in lock.name) and self._rng.random() < self._sync_p:
                 cand = self._eligible(me)
                 if cand:
                     to = cand[int(self._rng.random() * len(cand))]
